@@ -280,11 +280,10 @@ func (db *TempPool) OperationHashes(
 	}
 
 	ops := make([][2]util.Hash, limit)
-	removeordereds := make([][]byte, limit)
-	removeops := make([]util.Hash, limit)
+	var removeordereds [][]byte
+	var removeops []util.Hash
 
 	var opsindex uint64
-	var removeorderedsindex, removeopsindex uint64
 
 	facts := map[string]uint64{}
 	defer func() {
@@ -297,8 +296,7 @@ func (db *TempPool) OperationHashes(
 		func(k []byte, b []byte) (bool, error) {
 			meta, err := ReadFrameHeaderOperation(b)
 			if err != nil {
-				removeordereds[removeorderedsindex] = k
-				removeorderedsindex++
+				removeordereds = append(removeordereds, k)
 
 				return true, nil
 			}
@@ -307,16 +305,14 @@ func (db *TempPool) OperationHashes(
 			case err != nil:
 				return false, err
 			case !ok:
-				removeops[removeopsindex] = meta.Operation()
-				removeopsindex++
+				removeops = append(removeops, meta.Operation())
 
 				return true, nil
 			}
 
 			// NOTE filter duplicated fact; last one will be selected
 			if prev, found := facts[meta.Fact().String()]; found {
-				removeops[removeopsindex] = meta.Operation()
-				removeopsindex++
+				removeops = append(removeops, meta.Operation())
 
 				nops := make([][2]util.Hash, len(ops))
 				copy(nops, ops[:prev])
@@ -342,11 +338,11 @@ func (db *TempPool) OperationHashes(
 		return nil, e.Wrap(err)
 	}
 
-	if err := db.removeNewOperationOrdereds(removeordereds[:removeorderedsindex]); err != nil {
+	if err := db.removeNewOperationOrdereds(removeordereds); err != nil {
 		return nil, e.Wrap(err)
 	}
 
-	if err := db.setRemoveNewOperations(ctx, height, removeops[:removeopsindex]); err != nil {
+	if err := db.setRemoveNewOperations(ctx, height, removeops); err != nil {
 		return nil, e.Wrap(err)
 	}
 
